@@ -17,6 +17,8 @@ def content(s):
     p = s.split(":")
     if p[0] == "gen":
         return gen_bytes(int(p[1]), int(p[2]))
+    if p[0] == "zero":
+        return bytes(int(p[1]))
     return b"" if s == "-" else bytes.fromhex(s)
 
 
